@@ -278,6 +278,12 @@ pub struct PtSpec {
     /// Time-out byte (BCD minutes) inside the intermediate statuses; None = absent.
     #[serde(default)]
     pub intermediate_timeout: Option<u8>,
+    /// Order of the packets between the acknowledgement and the final packet of a reply script
+    /// (intermediate statuses, status information, print packets - a terminal may send them in any
+    /// order and grouping): 0 = as built, 1 = reversed, 2 = rotated by one, 3 = interleaved (odd
+    /// positions first). The handshake is left alone.
+    #[serde(default)]
+    pub script_order: u8,
 }
 
 // ---------------------------------------------------------------- state
@@ -788,6 +794,9 @@ impl PtConn {
         };
         let mut out = vec![plain(rc::ACK.to_vec())];
         let mut completes = true;
+        // status informations with differing values inside one script (frame, values): the one that
+        // goes out last is "what the terminal reported"
+        let mut status_cands: Vec<(Vec<u8>, rc::Status)> = vec![];
         let (codes_kind, tmo) = (pt.spec.status_codes, pt.spec.intermediate_timeout);
         let pre = move |out: &mut Vec<Emit>, n: u8| {
             for i in 0..n {
@@ -1142,10 +1151,12 @@ impl PtConn {
                             // the summary must reproduce the last one the terminal reported
                             let s0 = pt.status(l.amount, l.currency, None);
                             out.insert(1, plain(rc::status_info(&s0)));
+                            status_cands.push((rc::status_info(&s0), s0));
                         }
                         if o.status {
                             let s = pt.status(l.amount.saturating_sub(release), l.currency, Some(receipt));
                             out.push(plain(rc::status_info(&s)));
+                            status_cands.push((rc::status_info(&s), s.clone()));
                             pt.requests[req].status_sent = Some(s);
                         }
                         prints(&mut out, o.prints);
@@ -1182,6 +1193,27 @@ impl PtConn {
                 // and completed, as most ZVT commands are - a change that adds a harmless exchange must
                 // not lose its connection to the simulator's ignorance
                 out.push(plain(rc::completion()));
+            }
+        }
+        if pt.spec.script_order != 0 && out.len() > 3 && !pt.requests[req].handshake {
+            let n = out.len();
+            let mid: Vec<Emit> = out.drain(1..n - 1).collect();
+            let m = mid.len();
+            let idx: Vec<usize> = match pt.spec.script_order % 4 {
+                1 => (0..m).rev().collect(),
+                2 => (1..m).chain(0..1).collect(),
+                3 => (0..m).filter(|i| i % 2 == 1).chain((0..m).filter(|i| i % 2 == 0)).collect(),
+                _ => (0..m).collect(),
+            };
+            let last = out.pop().unwrap();
+            for i in idx {
+                out.push(mid[i].clone());
+            }
+            out.push(last);
+            if let Some(f) = out.iter().rev().find(|e| e.frame.len() > 2 && (e.frame[0], e.frame[1]) == (0x04, 0x0f)) {
+                if let Some((_, st)) = status_cands.iter().find(|(fr, _)| *fr == f.frame) {
+                    pt.requests[req].status_sent = Some(st.clone());
+                }
             }
         }
         if let Some(last) = out.last() {
